@@ -11,7 +11,7 @@ for s in $IDS; do
   git -C $W checkout -q -- . 
   if ! git -C $W apply /verif/seeded/$s/patch.diff 2>/dev/null; then echo "$s PATCH-DOES-NOT-APPLY"; continue; fi
   t0=$(date +%s)
-  (cd /verif && VERIF_REPO=$W timeout 1500 ./check $prop $TIER) > /tmp/seedrun.$$.log 2>&1; rc=$?
+  (cd /verif && VERIF_STOP_AT_FIRST=${VERIF_STOP_AT_FIRST-1} VERIF_REPO=$W timeout 1500 ./check $prop $TIER) > /tmp/seedrun.$$.log 2>&1; rc=$?
   t1=$(date +%s)
   viol=$(grep -c '^VIOLATION' /tmp/seedrun.$$.log)
   first=$(grep -m1 'violation in' /tmp/seedrun.$$.log | cut -c1-300)
